@@ -12,7 +12,7 @@ import json, os, re, subprocess, sys, time
 from concurrent.futures import ThreadPoolExecutor
 import queue
 
-OUT = '/tmp/mut2/triage'
+OUT = os.environ.get('TRIAGE_OUT', '/tmp/mut2/triage')
 
 
 def sh(cmd, cwd=None, timeout=7200, env=None):
